@@ -34,8 +34,9 @@ void hb_stack_copy(void)
 {
   mvalue src[VMAX]; int content0[VMAX]; stack that;
   that.m_values.n = nondet_ulong(); __CPROVER_assume(that.m_values.n <= VMAX);
-  that.m_profile = nondet_uint();
-  for (unsigned i = 0; i < VMAX; ++i) { src[i].content = nondet_int(); content0[i] = src[i].content; that.m_values.d[i] = i < that.m_values.n ? &src[i] : 0; }
+  for (unsigned i = 0; i < VMAX; ++i) { src[i].content = nondet_int(); src[i].type = (unsigned char)nondet_int(); content0[i] = src[i].content; that.m_values.d[i] = i < that.m_values.n ? &src[i] : 0; }
+  /* class invariant of a stack: the profile holds the type codes of the top four values, top value in the low byte */
+  { unsigned pr = 0; for (unsigned i = 0; i < VMAX; ++i) if (i < that.m_values.n) pr = (pr << 8) | src[i].type; that.m_profile = pr; }
   pvvec orig0 = that.m_values; unsigned profile0 = that.m_profile;
   g_clones = 0; verif_raised = 0;
   stack copy = stack_copy_ctor(&that);
